@@ -3550,7 +3550,14 @@ func (a *Association) handleForwardTSN(chunkTSN *chunkForwardTSN) []*packet {
 	// corresponding streams so that the abandoned chunks can be removed
 	// from the reassemblyQueue.
 	for _, forwarded := range chunkTSN.streams {
-		if s, ok := a.streams[forwarded.identifier]; ok {
+		// The skipped message may have been the first one on its stream. Create the
+		// stream like the skipped DATA would have, otherwise the skip is lost and
+		// ordered delivery on that stream never starts.
+		s, ok := a.streams[forwarded.identifier]
+		if !ok {
+			s = a.createStream(forwarded.identifier, true)
+		}
+		if s != nil {
 			s.handleForwardTSNForOrdered(forwarded.sequence)
 		}
 	}
@@ -3591,7 +3598,13 @@ func (a *Association) handleIForwardTSN(chunkTSN *chunkIForwardTSN) []*packet {
 	a.payloadQueue.advanceCumulativeTSN(chunkTSN.newCumulativeTSN)
 
 	for _, forwarded := range chunkTSN.streams {
-		if s, ok := a.streams[forwarded.identifier]; ok {
+		// See handleForwardTSN: the skipped message may have been the first one
+		// on its stream.
+		s, ok := a.streams[forwarded.identifier]
+		if !ok {
+			s = a.createStream(forwarded.identifier, true)
+		}
+		if s != nil {
 			if forwarded.unordered {
 				s.handleForwardTSNForUnorderedMID(forwarded.messageIdentifier)
 			} else {
